@@ -80,6 +80,14 @@ def run(tier, seed):
                 nontrivial.add(h)
                 if len(samples) < 4 and errs[e["errname"]] == 1:
                     samples.append({"tree": e["tree"], "flags": e["flags"], "vis": e["vis"], "ok": False, "err": e["errname"]})
+    # vacuity guard: the streams must reach (almost) every rejection rule of the machine and many accepting runs
+    must = ["Err(TooManyAnnouncements)", "Err(EphemeralRelativeCondition)", "Err(AssertEphemeralFailed)", "Err(MessageNotSentOrReceived)",
+            "Err(ImpossibleHeightRelativeConstraints)", "Err(ImpossibleSecondsAbsoluteConstraints)", "Err(DuplicateOutput)", "Err(DoubleSpend)",
+            "Err(MintingCoin)", "Err(ReserveFeeConditionFailed)", "Err(InvalidPublicKey)", "Err(InvalidMessageMode)", "Err(CostExceeded)",
+            "Err(AssertConcurrentSpendFailed)", "Err(AssertPuzzleAnnouncementFailed)", "Err(InvalidSoftforkCost)", "Err(CoinAmountNegative)"]
+    missing = [m for m in must if m not in errs]
+    if missing or len(errs) < 40 or len(acc) < 2000:
+        raise ToolError("conditions pipeline vacuity guard: missing reject classes %r, %d classes, %d accepted" % (missing, len(errs), len(acc)))
     res["accepted_distinct"] = len(acc)
     res["reject_classes"] = errs
     res["nontrivial"] = len(nontrivial)
